@@ -17,10 +17,10 @@ import (
 // a larger array. The model is snapshot semantics: the values as they were
 // when the call was made.
 //
-// Established on the unchanged library (exhaustively, len <= 9, spare <= 12,
-// every index, every view s[a:b], three view capacities): it follows the
-// snapshot model for every view EXCEPT one shape, which is therefore excluded
-// from the generator (the raw view start is reduced modulo index+1 instead):
+// Established on the pinned library (exhaustively, len <= 9, spare <= 12,
+// every index, every view s[a:b], three view capacities): it followed the
+// snapshot model for every view EXCEPT one shape - a genuine defect, repaired
+// by fix commit 4554316 in /repo; the shape is generated like every other now:
 //
 //	non-empty values s[a:b] that start AFTER the insertion index (a > index)
 //	while the slice has spare capacity >= len(values) (insertion in place):
@@ -109,8 +109,8 @@ func runAlias[E any](et *etype[E], c ACase) (out pbt.Outcome) {
 		lo := mod(c.Lo, limit+1)
 		k := mod(c.K, limit-lo+1)
 		if k >= 1 && k <= c.Spare && lo-c.Off > idx {
-			lo = mod(c.Lo, c.Off+idx+1) // the excluded shape (see the head of this file)
-			lab("excluded-shape-remapped")
+			// the shape the pinned tree got wrong (values from behind the index, inserted in place; fixed: 4554316)
+			lab("values-from-behind-the-index-inserted-in-place")
 		}
 		hi := lo + k
 		vals, vdesc := view(lo, hi)
@@ -312,9 +312,8 @@ var specAlias = pbt.Register(&pbt.Spec[ACase]{
 		"InsertSlice(&s, index, values) with s = buf[off:off+len:off+len+spare] and values = buf[lo:hi:c], any lo <= hi <= off+len (a part of the slice itself, " +
 		"the whole slice, an empty part, a part that starts in the elements before the slice), c = end of the buffer / hi (no spare capacity) / halfway; " +
 		"expected = s[:index] + the values as they were when passed + s[index:] (snapshot semantics), only the resulting slice is asserted. " +
-		"EXCLUDED SHAPE (the unchanged library does not follow the snapshot model there; lo is reduced modulo off+index+1 instead): non-empty values that " +
-		"start after the insertion index (lo-off > index) while spare >= len(values), i.e. insertion in place: e.g. s=[100 101] cap 3, " +
-		"InsertSlice(&s, 0, s[1:2]) gives [100 100 101]. Every other shape is generated: values ending before the index, spanning the index, the whole slice, " +
+		"Every shape is generated - also the one the pinned tree got wrong (fixed by 4554316): non-empty values that start after the insertion index (lo-off > index) " +
+		"while spare >= len(values), i.e. insertion in place: s=[100 101] cap 3, InsertSlice(&s, 0, s[1:2]) gave [100 100 101] - : values ending before the index, spanning the index, the whole slice, " +
 		"after the index with reallocation, each in place and with reallocation, len(values) <, =, > number of elements after the index. " +
 		"Concat(a, b) with a = buf[off:off+len:off+len+spare] and b = ANY view buf[lo:hi:c] of the same buffer (equal to a, overlapping a, starting exactly where a " +
 		"ends i.e. in a's spare capacity, before a, behind a): result = a + b and shares no memory with buf (writing the result up to its capacity changes " +
